@@ -37,6 +37,11 @@ def c08 (input implOut : Sexp) : Option Verdict := do
              cls := if !gensOk then "rng-replaced" else v.cls,
              model := .list [.atom "exp-user", genModel, v.model] }
     | _ => none
+  | .list (.atom "evaluate" :: _) =>
+    -- direct evaluator calls on prepared populations: K = model (evalSeq / evalPar along the witness
+    -- schedule, legal witness) vs. code; O = parallel result equals sequential result (code vs. code)
+    let (model, ok, same, cls) ← predictEvaluate input implOut
+    pure { agree := ok, holds := same, cls, model }
   | .list [.atom "pairs", _, n] =>
     let model := Sexp.list [.atom "pairs", n, .list [.atom "collisions", .atom "0"]]
     let ok := Sexp.beq model implOut
